@@ -207,6 +207,18 @@ func runHistory(env *px.Env, org *origin.Origin, site *origin.Site, c Case, idx 
 					return
 				}
 			}
+			// ---- the client's own conditionals never match anything, so a 304 must never reach it, and every
+			// origin request after the first one of this exchange is the proxy's unconditional fallback fetch
+			if resp.Status == 304 {
+				res.fail = ev.Failf("reval.client-got-304", "%s: the client (conditionals %v, none of which can match) received a bodiless 304; origin answers in this exchange: %v", rid, op.Conds, entryStatuses(entries))
+				return
+			}
+			for _, e := range entries[1:] {
+				if len(e.Header["If-None-Match"]) != 0 || len(e.Header["If-Modified-Since"]) != 0 {
+					res.fail = ev.Failf("reval.fallback-fetch-conditional", "%s: after the revalidation ended with %d the proxy fetched again for this client, but with If-None-Match %q If-Modified-Since %q although the client asked unconditionally", rid, first.Status, e.Header["If-None-Match"], e.Header["If-Modified-Since"])
+					return
+				}
+			}
 			// ---- outcome
 			statuses := map[int]bool{}
 			for _, e := range entries {
@@ -269,6 +281,14 @@ func runHistory(env *px.Env, org *origin.Origin, site *origin.Site, c Case, idx 
 		}
 	}
 	return
+}
+
+func entryStatuses(es []origin.Entry) []int {
+	var out []int
+	for _, e := range es {
+		out = append(out, e.Status)
+	}
+	return out
 }
 
 func keys(m map[int]bool) []int {
